@@ -105,6 +105,9 @@ func makePlanOpt(p *Pair, r *prng.Rand, d int, square bool) Plan {
 		if d >= 0 {
 			sg, use = d%3-1, true
 			d /= 3
+			// with a zero directed receiver the signed operands are exactly
+			// -1 / 0 / +1 (exponent and factor 1 are branch points of their own)
+			g.unit = sg == 0
 		}
 		pl.Recv = g.scalar(T, sg, use)
 		if T.IsReal && r.Chance(0.3) {
@@ -174,6 +177,12 @@ func makePlanOpt(p *Pair, r *prng.Rand, d int, square bool) Plan {
 			case e.Kind == KScalar && d >= 0:
 				a = g.scalar(et, d%3-1, true)
 				d /= 3
+				if T.IsReal { // directed: operand with / without derivative storage
+					if d%2 == 1 {
+						a.J = gen.Jet{V: a.J.V}
+					}
+					d /= 2
+				}
 			case div && last:
 				switch x := r.Intn(25); {
 				case x == 0 || (d >= 0 && d%4 == 3): // zero divisor (directed: every fourth set)
@@ -186,7 +195,7 @@ func makePlanOpt(p *Pair, r *prng.Rand, d int, square bool) Plan {
 			default:
 				a = g.scalar(et, 0, false)
 			}
-			if e.Kind == KScalar && T.IsReal && r.Chance(0.25) {
+			if e.Kind == KScalar && T.IsReal && d < 0 && r.Chance(0.25) {
 				a.J = gen.Jet{V: a.J.V} // constant operand
 			}
 			pl.Args = append(pl.Args, a)
@@ -997,6 +1006,9 @@ func Run(c *fw.Ctx) {
 			for i := 1; i < p.C.Type.NumIn(); i++ {
 				if k, _ := paramKind(p.C.Type.In(i)); k == "scalar" {
 					ndir *= 3
+					if p.E.Elem.IsReal {
+						ndir *= 2
+					}
 				}
 			}
 		}
